@@ -40,13 +40,13 @@ pub fn follower_config(port: u16) -> Config {
 
 /// wait until the leader's sync port is bound (probing without SO_REUSEPORT fails once it is)
 pub async fn wait_for_port(port: u16) -> Result<(), Failure> {
-    for _ in 0..5000 {
+    for _ in 0..20_000 {
         if std::net::TcpListener::bind(("127.0.0.1", port)).is_err() {
             return Ok(());
         }
         tokio::time::sleep(Duration::from_millis(1)).await;
     }
-    Err(Failure::new("cluster.port", "the leader binds its sync port within 5 s", port).sig(json!({"obs": "timeout"})))
+    Err(Failure::new("cluster.port", "the leader binds its sync port within 20 s (20 000 probes)", port).sig(json!({"obs": "timeout"})))
 }
 
 pub async fn start_leader(config_for_port: impl Fn(u16) -> Config) -> Result<(Server, u16), Failure> {
